@@ -745,6 +745,109 @@ def run_repl_cases(ctx, binary, cases):
     return nsnip, fails
 
 
+# ------------------------------------------------------------------------------------------
+# literal sizes: constructs whose element count is an instruction operand (u8), at the edges of the operand range
+
+LIT_SIZES = [0, 1, 2, 127, 128, 129, 254, 255, 256]
+
+
+def lit_elem(i):
+    """(source, Display text) of element i: every kind in turn"""
+    k = i % 8
+    return [(str(i), str(i)), ('"s%d"' % i, "s%d" % i), ("nil", "nil"), ("true", "true"), ("[%d]" % i, "[%d]" % i), ("(%d,)" % i, "(%d,)" % i),
+            ("{%d: %d}" % (i, i), "{%d: %d}" % (i, i)), ("%d..%d" % (i, i + 1), "Range(%d, %d)" % (i, i + 1))][k]
+
+
+def lit_picks(n):
+    return sorted({0, n // 2, n - 1}) if n > 0 else []
+
+
+def lit_wrap(decl, literal, length_expr, pick_expr, n, expected_picks, call="lit(7)", extra_expected=None):
+    """the literal evaluated in a loop and once more, between locals declared before and after it"""
+    picks = lit_picks(n)
+    src = [decl, 'fn lit(a) { var before = "B"; var before2 = [a]; var i = 0; var acc = 0;',
+           "  while i < 3 { var x = %s; acc = acc + %s; i = i + 1; }" % (literal, length_expr("x")),
+           '  var y = %s; var after = "A";' % literal,
+           "  print(%s);" % length_expr("y")]
+    src += ["  print(%s);" % pick_expr("y", j) for j in picks]
+    src += ["  print(before); print(before2); print(after); print(acc); return y; }", "var z = %s; print(%s);" % (call, length_expr("z"))]
+    exp = [str(n)] + expected_picks + ["B", "[7]", "A", str(3 * n), str(n)]
+    return "\n".join(src), exp
+
+
+def gen_literal_cases():
+    """[(family, n, source, expected lines | 'compile-error')]"""
+    cases = []
+    for n in LIT_SIZES:
+        ex = (lambda fam, src: cases.append((fam, n, src, "compile-error"))) if n > 255 else None
+        els = [lit_elem(i) for i in range(n)]
+        picks = lit_picks(n)
+        # map literal: numeric and string keys
+        keys = [(str(i), str(i)) if i % 2 == 0 else ('"k%d"' % i, "k%d" % i) for i in range(n)]
+        src, exp = lit_wrap("", "{%s}" % ", ".join("%s: %s" % (keys[i][0], els[i][0]) for i in range(n)), lambda v: "%s.len()" % v,
+                            lambda v, j: "%s.get(%s)" % (v, keys[j][0]), n, [els[j][1] for j in picks])
+        cases.append(("map_entries", n, src, exp if n <= 255 else "compile-error"))
+        src, exp = lit_wrap("", "[%s]" % ", ".join(e[0] for e in els), lambda v: "%s.len()" % v, lambda v, j: "%s[%d]" % (v, j), n, [els[j][1] for j in picks])
+        cases.append(("vec_elements", n, src, exp if n <= 255 else "compile-error"))
+        tl = "()" if n == 0 else "(%s,)" % els[0][0] if n == 1 else "(%s)" % ", ".join(e[0] for e in els)
+        src, exp = lit_wrap("", tl, lambda v: "%s.len()" % v, lambda v, j: "%s[%d]" % (v, j), n, [els[j][1] for j in picks])
+        cases.append(("tuple_elements", n, src, exp if n <= 255 else "compile-error"))
+        # call arguments / parameters: the callee returns what it received in the picked positions
+        names = ["p%d" % i for i in range(n)]
+        ret = "[%s]" % ", ".join(names[j] for j in picks)
+        args = ", ".join(e[0] for e in els)
+        shown = "[%s]" % ", ".join(els[j][1] for j in picks)
+        body_exp = lambda: [str(len(picks)), shown, "B", "[7]", "A", str(3 * len(picks)), str(len(picks))]
+
+        def call_case(fam, decl, callexpr):
+            src_ = "\n".join([decl, 'fn lit(a) { var before = "B"; var before2 = [a]; var i = 0; var acc = 0;',
+                               "  while i < 3 { var x = %s; acc = acc + x.len(); i = i + 1; }" % callexpr,
+                               '  var y = %s; var after = "A";' % callexpr,
+                               "  print(y.len()); print(y); print(before); print(before2); print(after); print(acc); return y; }", "var z = lit(7); print(z.len());"])
+            cases.append((fam, n, src_, body_exp() if n <= 255 else "compile-error"))
+        call_case("call_args+parameters", "fn callee(%s) { return %s; }" % (", ".join(names), ret), "callee(%s)" % args)
+        call_case("invoke_args+method_parameters", "#[constructor(new)] class KL { fn m(self%s) { return %s; } }" % ("".join(", " + x for x in names), ret), "KL.new().m(%s)" % args)
+        call_case("lambda_parameters", "var lam = |%s| %s;" % (", ".join(names), ret), "lam(%s)" % args)
+        # interpolation parts: n expression parts, and n parts alternating with text
+        for fam, parts in (("interpolation_parts", ["${%d}" % (i % 10) for i in range(n)]),
+                           ("interpolation_parts_text", [("${%d}" % (i % 10)) if i % 2 == 0 else "x" for i in range(n)])):
+            lit = '"%s"' % "".join(parts)
+            text = "".join(str(i % 10) if p.startswith("$") else p for i, p in enumerate(parts))
+            src_ = "\n".join(['fn lit(a) { var before = "B"; var before2 = [a]; var i = 0; var acc = 0;',
+                               "  while i < 3 { var x = %s; acc = acc + x.len(); i = i + 1; }" % lit,
+                               '  var y = %s; var after = "A";' % lit,
+                               "  print(y.len()); print(y); print(before); print(before2); print(after); print(acc); return y; }", "var z = lit(7); print(z.len());"])
+            cases.append((fam, n, src_, [str(len(text)), text, "B", "[7]", "A", str(3 * len(text)), str(len(text))] if n <= 255 else "compile-error"))
+        # locals
+        if n >= 2:
+            src_ = "fn lit() { %s l%d = l0 + 1; return [l0, l%d, l%d]; }\nprint(lit());" % ("".join("var l%d = %d;" % (i, i) for i in range(n)), n - 1, n // 2, n - 1)
+            cases.append(("locals", n, src_, ["[0, %d, 1]" % (n // 2 if n // 2 != n - 1 else 1)] if n <= 255 else "compile-error"))
+    return cases
+
+
+def run_literal_cases(ctx, binary, cases, what, limits):
+    """returns (#ok, failures [(family, n, source, description, is_panic)])"""
+    recs = run_confirmed(ctx, binary, ["run - " + hx(c[2]) for c in cases], what)
+    ok = 0
+    fails = []
+    for (fam, n, src, exp), r in zip(cases, recs):
+        bad = bad_record(r)
+        if bad:
+            fails.append((fam, n, src, bad, True))
+        elif exp == "compile-error" or n > limits.get(fam, 255):
+            if r.result != ("err", "CompileError"):
+                fails.append((fam, n, src, "expected a compile error (count does not fit the operand), got %s %s" % (r.result[0], r.output[:3]), False))
+            else:
+                ok += 1
+        elif r.result[0] != "ok" or r.output != exp:
+            got = r.output
+            k = next((i for i, (a, b) in enumerate(zip(got, exp)) if a != b), min(len(got), len(exp)))
+            fails.append((fam, n, src, "result %s %s; printed line %d: got %r, expected %r" % (r.result[0], r.messages[:1], k, got[k:k + 1], exp[k:k + 1]), False))
+        else:
+            ok += 1
+    return ok, fails
+
+
 def run_iter_cases(ctx, binary, cases, what):
     """returns (#agree, #differ, failures[(source, description)], first differences)"""
     group = 24
@@ -1378,6 +1481,14 @@ def run(ctx):
                 ctx.violation(rp.get("what", "replay"), input=rp.get("input"), snippets=snips, expected="every run: Ok or Err(Error)", actual=bad)
             ctx.cov.update({"evaluations": 1, "distinct_nontrivial": 1, "rule": "replay of one recorded snippet sequence", "samples": [rp["snippets"][1][:300]]})
             return
+        if rp.get("family") is not None and rp.get("size") is not None:
+            one = [c for c in gen_literal_cases() if c[0] == rp["family"] and c[1] == rp["size"]]
+            bbin = ctx.harness("release") if rp.get("build") == "release" else binary
+            _ok, l_fails = run_literal_cases(ctx, bbin, one, "replay", {"locals": 255})
+            for fam, n_, src_, bad, is_panic in l_fails:
+                ctx.violation(rp.get("what", "replay"), input=src_, expected=rp.get("expected"), actual=bad, build=rp.get("build"), family=fam, size=n_)
+            ctx.cov.update({"evaluations": 1, "distinct_nontrivial": 1, "rule": "replay of one recorded literal-size case", "samples": [rp["family"], rp["size"]]})
+            return
         src = rp.get("input", "")
         rec = yvlib.run_harness(binary, [mods_line(src)], quarantine=True)[0]
         bad = bad_record(rec)
@@ -1482,6 +1593,19 @@ def run(ctx):
     hist["twice:ok"] = tw_agree
     hist["twice:fail"] = len(tw_fails)
     log('[C02] same-object cases: %d in %.1fs' % (len(tcases), time.time() - t0))
+    t0 = time.time()
+    # ---- literal sizes at the edges of the u8 count operands, dev and release builds, values known by construction ----
+    lcases = gen_literal_cases()
+    lit_limits = {"locals": 255}
+    lit_hist = {}
+    for bname, bbin in (("debug", binary), ("release", ctx.harness("release"))):
+        l_ok, l_fails = run_literal_cases(ctx, bbin, lcases, bname + " literal-size", lit_limits)
+        hist["literal:%s:ok" % bname] = l_ok
+        hist["literal:%s:fail" % bname] = len(l_fails)
+        for fam, n_, src_, bad, is_panic in l_fails[:3]:
+            ctx.violation("%s with %d elements (%s build): %s" % (fam, n_, bname, ("does not end in a value or a reported error: " if is_panic else "wrong result: ") + bad),
+                          input=src_, expected="the values known by construction" if n_ <= 255 else "CompileError", actual=bad, build=bname, family=fam, size=n_)
+    log('[C02] literal-size cases: %d x 2 builds in %.1fs' % (len(lcases), time.time() - t0))
     t0 = time.time()
     # ---- aliasing: the receiver (or a holder / part / iterator of it) as its own argument ----
     acases = gen_alias_cases(ctx, quick)
@@ -1612,8 +1736,8 @@ def run(ctx):
     log('[C02] site check: %d functions in %.1fs' % (fns, time.time() - t0))
     ncalls = len(probes) + len(dprobes)
     ctx.cov.update({
-        "operator_probes": len(ops), "iterator_misuse_cases": len(icases), "same_object_cases": len(tcases), "aliasing_cases": len(acases), "multi_snippet_cases": len(rcases), "multi_snippet_snippets": repl_snips,
-        "evaluations": ncalls + len(ops) + len(icases) + len(tcases) + len(acases) + len(rcases) + len(lts) + len(progs) * len(builds) + len(KNOWN) + (len(probes) if not quick else 0),
+        "operator_probes": len(ops), "iterator_misuse_cases": len(icases), "same_object_cases": len(tcases), "literal_size_cases": len(lcases) * 2, "aliasing_cases": len(acases), "multi_snippet_cases": len(rcases), "multi_snippet_snippets": repl_snips,
+        "evaluations": ncalls + len(ops) + len(icases) + len(tcases) + 2 * len(lcases) + len(acases) + len(rcases) + len(lts) + len(progs) * len(builds) + len(KNOWN) + (len(probes) if not quick else 0),
         "distinct_nontrivial": len(nontrivial),
         "rule": "native calls: distinct (native, fiber context, receiver kind, argument-kind vector) combinations whose outcome is NOT an arity error "
                 "(the call got past check_num_args / the at-most-1 test); kinds as in NativesModel.akind (number class, vec length, tuple hashability, "
